@@ -55,7 +55,9 @@ public:
     {
         std::unique_lock<std::mutex> lock(mutex_);
         size_t res = ++value_;
-        cv_.notify_one();
+        // wake all waiters: they may wait for different (delta + slack), so a
+        // single wake-up can reach one that still cannot proceed.
+        cv_.notify_all();
         return res;
     }
 
